@@ -33,7 +33,7 @@ def read_lammpslog(filename) -> [pd.DataFrame]:
 
     start = np.array(start)
     end = np.array(end)
-    linenum = end - start - 1
+    linenum = np.maximum(end - start - 1, 0)  # an interrupted section with a single thermo line has no complete row
     logger.info(f"Section Number: {len(linenum)} \t Line Numbers: {str(linenum)}")
     del data
 
